@@ -302,6 +302,9 @@ def corpus_net(rng, name):
         b.t(m).shape = list(b.t(x).shape)
         _same_quant(b, m, x)
         z = b.binary("MAXIMUM", x, m)
+    elif name == "known_pad_hw_and_channel":
+        # PAD that pads height/width and channels at once
+        z = b.pool(b.pad(x, [[0, 0], [1, 1], [1, 1], [0, 2]]), "MAX_POOL_2D", (1, 1), (1, 1), "VALID")
     elif name == "known_lrelu16_rounding":
         # identity multiplier exactly 1/2, alpha 0.998: for small negative inputs the two roundings of the identity branch end one
         # above the alpha branch (Props/C01Rewrites.lrelu_mulmax_id_witness)
@@ -355,6 +358,8 @@ def _worker(job):
                    src_quant=[(list(t.scales or []), list(t.zps or [])) for t in net.tensors],
                    src_scalars={i: int(np.asarray(t.data).reshape(-1)[0]) for i, t in enumerate(net.tensors)
                                 if t.data is not None and np.asarray(t.data).size == 1},
+                   src_pads={i: np.asarray(t.data).reshape(-1, 2).tolist() for i, t in enumerate(net.tensors)
+                             if t.data is not None and t.dtype == "int32" and np.asarray(t.data).size in (6, 8)},
                    src_graph=[(o.kind, list(o.inputs), list(o.outputs), int((o.opts[1] if o.opts else {}).get("FusedActivationFunction", 0)),
                                int((o.opts[1] if o.opts else {}).get("Padding", -1)),
                                max(int((o.opts[1] if o.opts else {}).get("StrideW", 1)), int((o.opts[1] if o.opts else {}).get("StrideH", 1))))
@@ -433,6 +438,13 @@ def classify_failure(o, ans):
                             return "mul-max-to-abs:quantised-minus-one-not-real-minus-one"
                         if q >= 0 and real > 1:
                             return "mul-max-to-lrelu:real-constant-above-one"
+        # PAD with channel (or batch) padding and spatial padding at once: convert_pad_to_concat keeps only the channel part
+        pads = o.get("src_pads") or {}
+        for kind, ins, outs, faf, pad, stride in g:
+            if kind == "PAD" and len(ins) > 1 and ins[1] in pads:
+                pv = pads[ins[1]]
+                if (sum(pv[-1]) != 0 or (len(pv) == 4 and sum(pv[0]) != 0)) and sum(pv[-3]) + sum(pv[-2]) != 0:
+                    return "pad-spatial-and-channel-padding:spatial-part-dropped"
         # int16 LEAKY_RELU with differing scales lowered to Maximum(Mul, Mul): each branch rounds twice
         if o.get("dtype") == "int16" and re.search(r"maxdiff=1 ", ans) and not re.search(r"maxdiff=([2-9]|1\d)", ans):
             for kind, ins, outs, faf, pad, stride in g:
@@ -474,7 +486,7 @@ def main():
     jobs = [(0, 0, "known_" + nm, k_inputs) for nm in ("slice_relu", "fused_act_relu", "pad_conv_reshape", "quantize_relu", "reshape_relu",
                                                               "slice_window", "lut_reshape", "cascade_stale_row", "pad_avgpool_act", "slice_of_slice", "slice_strided_conv", "fc_int16",
                                                               "slice_strided_pool", "pad_concat", "pad_strided_dw", "lrelu16_relu6", "lrelu16_reshape",
-                                                              "mulmax_gt1", "mulmax_q0", "mulmax_qm1", "lrelu16_rounding")]
+                                                              "mulmax_gt1", "mulmax_q0", "mulmax_qm1", "lrelu16_rounding", "pad_hw_and_channel")]
     jobs += [(ck.seed, i, PROFILES[i % len(PROFILES)], k_inputs) for i in range(n)]
     ctx = multiprocessing.get_context("fork")
     with ProcessPoolExecutor(min(16, os.cpu_count() or 4), mp_context=ctx) as ex:
